@@ -17,7 +17,7 @@ SEM = {
     'C09': dict(viol={'C09'}, phases={'ctx', 'err'}, ctx_fields={'fee'}, ctx_kinds={'self'}),
     'C10': dict(viol={'C10'}, phases={'ctx', 'err'}, ctx_fields=None, ctx_kinds={'at', 'abs', 'rel'}),
     'C02': dict(viol={'C02'}, phases={'paths', 'err'}, ctx_fields=None, ctx_kinds=None),
-    'C04': dict(viol={'C04'}, phases={'cfg', 'err'}, ctx_fields=None, ctx_kinds=None),
+    'C04': dict(viol={'C04'}, phases={'cfg', 'func', 'err'}, ctx_fields=None, ctx_kinds=None),
 }
 
 # which fields of a violation a finding may explain
@@ -59,6 +59,13 @@ def make_items(cx, spec, nprog, nenv, streams=('corpus', 'fragment', 'shapes')):
         for i in range(nprog // 2):
             src, tags = gen.fragment(cx.seed, i, shapes=True)
             items.append({'name': f'shapes/{cx.seed}/{i}', 'src': src, 'nenv': nenv, 'seed': cx.seed, 'stream': 'shapes', 'tags': tags})
+    if 'direct' in streams:
+        nd = gen.N_DIRECT if not cx.quick() else 96
+        rng = random.Random(f"direct/{cx.seed}")
+        idxs = list(range(gen.N_DIRECT)); rng.shuffle(idxs)
+        for i in idxs[:nd]:
+            src, tags = gen.direct(cx.seed, i)
+            items.append({'name': f'direct/{cx.seed}/{i}', 'src': src, 'nenv': max(40, nenv // 2), 'seed': cx.seed, 'stream': 'direct'})
     if 'layout' in streams:
         for i in range(nprog):
             items.append({'name': f'layout/{cx.seed}/{i}', 'src': gen.layout(cx.seed, i), 'nenv': nenv // 3, 'seed': cx.seed, 'stream': 'layout'})
@@ -98,7 +105,7 @@ def classify(cx, pid, spec, results):
             stats[k] += v
         if r['status'] in ('harness-error', 'model-semprog-error'):
             raise RuntimeError(f"harness failure on {r['name']}: {r.get('detail')}")
-        if r['status'] == 'impl-parse-error':
+        if r['status'] in ('impl-parse-error', 'impl-timeout'):
             continue
         if r.get('stats', {}).get('accept', 0) > 0 or not r.get('stats'):
             cx.distinct.add(r['name'])
@@ -130,7 +137,7 @@ def semantic_check(pid):
         if replay is not None:
             return do_replay(cx, pid, spec, replay)
         nprog, nenv = volumes(cx, 90, 100)
-        streams = ('corpus', 'fragment', 'shapes') + (('layout',) if pid == 'C04' else ())
+        streams = ('corpus', 'fragment', 'shapes', 'direct') + (('layout',) if pid == 'C04' else ())
         items = make_items(cx, spec, nprog, nenv, streams)
         results = engine.run_items(items)
         src_of = {it['name']: it['src'] for it in items}
